@@ -13,6 +13,7 @@ package main
 
 import (
 	"bufio"
+	"context"
 	"fmt"
 	"io"
 	"math/rand"
@@ -45,11 +46,12 @@ type liveState struct {
 	reqs   map[string][]*base.Request
 	ress   map[string][]*base.Response
 	closes map[string][]string
-	stray  []string // requests that name no known peer
+	byAddr map[string][]string // close errors by the peer's socket address (diagnostics of failures)
+	stray  []string            // requests that name no known peer
 }
 
 func newLiveState() *liveState {
-	return &liveState{cur: map[*gortsplib.ServerConn]string{}, reqs: map[string][]*base.Request{}, ress: map[string][]*base.Response{}, closes: map[string][]string{}}
+	return &liveState{cur: map[*gortsplib.ServerConn]string{}, reqs: map[string][]*base.Request{}, ress: map[string][]*base.Response{}, closes: map[string][]string{}, byAddr: map[string][]string{}}
 }
 
 func cloneHeader(h base.Header) base.Header {
@@ -109,8 +111,18 @@ func (h *liveHandler) OnResponse(sc *gortsplib.ServerConn, res *base.Response) {
 }
 
 func (h *liveHandler) OnConnClose(ctx *gortsplib.ServerHandlerOnConnCloseCtx) {
+	addr := ""
+	if nc := ctx.Conn.NetConn(); nc != nil {
+		func() {
+			defer func() { _ = recover() }() // some tunnel conns do not implement RemoteAddr
+			addr = nc.RemoteAddr().String()
+		}()
+	}
 	h.st.mu.Lock()
 	defer h.st.mu.Unlock()
+	if addr != "" {
+		h.st.byAddr[addr] = append(h.st.byAddr[addr], fmt.Sprint(ctx.Error))
+	}
 	if peer, ok := h.st.cur[ctx.Conn]; ok {
 		h.st.closes[peer] = append(h.st.closes[peer], fmt.Sprint(ctx.Error))
 		delete(h.st.cur, ctx.Conn)
@@ -252,6 +264,7 @@ type liveOutcome struct {
 	chunks    int
 	partition *partition
 	stream    *stream
+	addrs     []string // local socket addresses of the peer
 }
 
 func tcpDial(addr string) (net.Conn, error) {
@@ -291,6 +304,7 @@ func httpTunnelExchange(addr, peer string, els []elem, r *rand.Rand) (out liveOu
 		return
 	}
 	defer getc.Close()
+	out.addrs = append(out.addrs, getc.LocalAddr().String())
 	getc.SetDeadline(time.Now().Add(liveTimeout + 20*time.Second)) //nolint:errcheck
 	_, err = getc.Write([]byte("GET /" + peer + " HTTP/1.1\r\nHost: " + addr + "\r\nX-Sessioncookie: " + cookie +
 		"\r\nAccept: application/x-rtsp-tunnelled\r\nContent-Length: 30000\r\n\r\n"))
@@ -316,6 +330,7 @@ func httpTunnelExchange(addr, peer string, els []elem, r *rand.Rand) (out liveOu
 		return
 	}
 	defer postc.Close()
+	out.addrs = append(out.addrs, postc.LocalAddr().String())
 	postc.SetDeadline(time.Now().Add(liveTimeout + 20*time.Second)) //nolint:errcheck
 	post := []byte("POST /" + peer + " HTTP/1.1\r\nHost: " + addr + "\r\nX-Sessioncookie: " + cookie +
 		"\r\nContent-Type: application/x-rtsp-tunnelled\r\nContent-Length: 30000\r\n\r\n")
@@ -388,6 +403,7 @@ func wsTunnelExchange(addr, peer string, els []elem, r *rand.Rand) (out liveOutc
 		return
 	}
 	defer wc.Close()
+	out.addrs = append(out.addrs, wc.LocalAddr().String())
 	wc.SetReadDeadline(time.Now().Add(liveTimeout + 20*time.Second))  //nolint:errcheck
 	wc.SetWriteDeadline(time.Now().Add(liveTimeout + 20*time.Second)) //nolint:errcheck
 	done := make(chan struct{})
@@ -417,6 +433,47 @@ func (st *liveState) take(peer string) (reqs []*base.Request, ress []*base.Respo
 	delete(st.ress, peer)
 	delete(st.closes, peer)
 	return
+}
+
+const errNoGET = "did not found a corresponding HTTP GET request"
+
+// reportHandshakeRace: the server answered the GET channel with 200 and then refused the POST
+// channel that the peer opened afterwards.
+func reportHandshakeRace(id caseID, carrier, closeErrs string) {
+	run.Count("http-tunnel-handshake-refused:"+carrier, 1)
+	run.Violation("tunnel-http-handshake/post-refused-get-not-registered",
+		"HTTP tunnel: the POST channel, opened after the 200 reply on the GET channel was received, is refused by the server (GET channel not registered yet)"+closeErrs,
+		liveWitness{caseID: id, Carrier: carrier, Detail: "GET answered with 200, then POST with the same x-sessioncookie refused" + closeErrs})
+}
+
+func (st *liveState) observed(peer string) int {
+	st.mu.Lock()
+	defer st.mu.Unlock()
+	return len(st.reqs[peer])
+}
+
+// closeErrors: what OnConnClose reported for the given peer sockets (diagnostics only; waits a
+// moment for the callbacks, which run after the sockets are closed).
+func (st *liveState) closeErrors(addrs []string) string {
+	var parts []string
+	for try := 0; try < 20; try++ {
+		parts = parts[:0]
+		st.mu.Lock()
+		for _, a := range addrs {
+			if e, ok := st.byAddr[a]; ok {
+				parts = append(parts, a+": "+strings.Join(e, ", "))
+			}
+		}
+		st.mu.Unlock()
+		if len(parts) == len(addrs) {
+			break
+		}
+		time.Sleep(25 * time.Millisecond)
+	}
+	if len(parts) == 0 {
+		return ""
+	}
+	return "; OnConnClose errors by peer socket: " + strings.Join(parts, " ; ")
 }
 
 // observedResponseAsElem: what a reader must decode for a response object seen by OnResponse.
@@ -451,6 +508,7 @@ func judge(id caseID, carrier string, els []elem, out *liveOutcome, st *liveStat
 		if len(closes) > 0 {
 			w.Detail += "; server closed the connection with: " + strings.Join(closes, " | ")
 		}
+		w.Detail += st.closeErrors(out.addrs)
 		run.Violation(carrier+"/"+key, carrier+": "+w.Detail, w)
 		return false
 	}
@@ -491,7 +549,8 @@ func runLiveRaw(addr string, st *liveState, id caseID, carrier string) {
 	peer := fmt.Sprintf("%s-%d", map[string]string{"tunnel-http": "h", "tunnel-ws": "w"}[carrier], id.Idx)
 	var out liveOutcome
 	var els []elem
-	for attempt := 0; attempt < 2; attempt++ {
+	timeouts := 0
+	for attempt := 0; attempt < 5; attempt++ {
 		r := run.Rand(id.Role, id.Idx)
 		els = genLiveRequests(r, peer, 8+r.Intn(40))
 		if carrier == "tunnel-http" {
@@ -505,14 +564,24 @@ func runLiveRaw(addr string, st *liveState, id caseID, carrier string) {
 			fmt.Printf("note: %s handshake failed: %v\n", carrier, out.setupErr)
 			return
 		}
-		if !out.timedOut {
-			break
+		// The tunnel itself was never established (the server refused the POST channel): that is
+		// a failure of the handshake, reported under a key of its own; the framing of this
+		// session is then examined on fresh connections.
+		if carrier == "tunnel-http" && len(out.decoded) == 0 && st.observed(peer) == 0 {
+			if ce := st.closeErrors(out.addrs); strings.Contains(ce, errNoGET) {
+				reportHandshakeRace(id, carrier, ce)
+				st.take(peer)
+				continue
+			}
 		}
-		if attempt == 0 {
+		if out.timedOut && timeouts == 0 {
 			// a session that does not complete is re-run once on fresh connections before it counts
+			timeouts++
 			st.take(peer)
 			run.Count("live-timeouts-retried", 1)
+			continue
 		}
+		break
 	}
 	evals.Add(1)
 	run.Count("tunnel-sessions:"+carrier, 1)
@@ -539,7 +608,13 @@ func runLiveClient(addr string, st *liveState, id caseID, carrier string) {
 		tag = "cl-w"
 	}
 	peer := fmt.Sprintf("%s%d", tag, id.Idx)
-	raw := "rtsp://" + addr + "/" + peer + "/" + genPathSeg(r)
+	// the first sessions of every run use a fixed list of path shapes (systematic part), the rest
+	// PRNG paths
+	seg := genPathSeg(r)
+	if id.Idx < len(clientPaths) {
+		seg = clientPaths[id.Idx]
+	}
+	raw := "rtsp://" + addr + "/" + peer + "/" + seg
 	if r.Intn(2) == 0 {
 		raw += "?" + vlib.RandString(r, 1+r.Intn(5), "abcxyz") + "=" + vlib.RandString(r, 1+r.Intn(8), "abcxyz0189")
 	}
@@ -557,17 +632,47 @@ func runLiveClient(addr string, st *liveState, id caseID, carrier string) {
 		}
 		run.Violation(carrier+"/"+key, carrier+": "+w.Detail, w)
 	}
-	c := gortsplib.Client{Scheme: u.Scheme, Host: u.Host, Tunnel: tunnel, ReadTimeout: liveTimeout, WriteTimeout: liveTimeout}
-	if err := c.Start(); err != nil {
-		run.Inconclusive("live-client-start-failed")
+	var ores *base.Response
+	var c *gortsplib.Client
+	for attempt := 0; ; attempt++ {
+		var amu sync.Mutex
+		var addrs []string
+		c = &gortsplib.Client{Scheme: u.Scheme, Host: u.Host, Tunnel: tunnel, ReadTimeout: liveTimeout, WriteTimeout: liveTimeout,
+			DialContext: func(ctx context.Context, network, address string) (net.Conn, error) {
+				nc, err := (&net.Dialer{}).DialContext(ctx, network, address)
+				if err == nil {
+					amu.Lock()
+					addrs = append(addrs, nc.LocalAddr().String())
+					amu.Unlock()
+				}
+				return nc, err
+			}}
+		if err := c.Start(); err != nil {
+			run.Inconclusive("live-client-start-failed")
+			return
+		}
+		var err error
+		ores, err = c.Options(u)
+		if err == nil {
+			break
+		}
+		c.Close()
+		amu.Lock()
+		ce := st.closeErrors(addrs)
+		amu.Unlock()
+		switch {
+		case strings.Contains(ce, errNoGET) && attempt < 4:
+			reportHandshakeRace(id, carrier, ce)
+			st.take(peer)
+			continue
+		case strings.Contains(ce, "malformed HTTP") || strings.Contains(ce, "invalid URL escape") || strings.Contains(ce, "invalid URI"):
+			fail("handshake/request-target-rejected", fmt.Sprintf("Client.Options(%s) fails: %v: the HTTP request line of the tunnel handshake is rejected by the server%s", raw, err, ce))
+		default:
+			fail("options-failed", fmt.Sprintf("Client.Options(%s) fails: %v%s", raw, err, ce))
+		}
 		return
 	}
 	defer c.Close()
-	ores, err := c.Options(u)
-	if err != nil {
-		fail("options-failed", fmt.Sprintf("Client.Options(%s) fails: %v", raw, err))
-		return
-	}
 	_, dres, derr := c.Describe(u)
 	if dres == nil {
 		fail("describe-failed", fmt.Sprintf("Client.Describe(%s) returns no response: %v", raw, derr))
@@ -619,6 +724,10 @@ func runLiveClient(addr string, st *liveState, id caseID, carrier string) {
 	}
 	run.Distinct(carrier + "|" + raw)
 }
+
+// path shapes every run sends through the library's client (all are fixed points of
+// ParseURL(x).String())
+var clientPaths = []string{"stream", "with%20space", "a%2Fb", "pct%25sign", "q%3Fmark", "caf%C3%A9", "semi;colon=1,2", "trackID=0/sub", "a+b&c", "tilde~!$'()*"}
 
 type liveJob struct {
 	carrier string
